@@ -442,6 +442,7 @@ def _provenance(ctx, res) -> None:
         if cls is None and f.parent is not None and f.parent.cls is not None:
             cls = f.parent.cls
         pv = _Prov(idx, cls, f)
+        ordinal = {}
         for c in sites:
             n += 1
             arg = c.args[0]
@@ -484,7 +485,8 @@ def _provenance(ctx, res) -> None:
                                     n2 = (cfg2.node_containing(call) or [None])[0]
                                     sites2.append(n2 is not None and _sanitised(idx, c2, m2, cfg2, n2, arg, _Prov(idx, c2, m2)))
                     sanitised = bool(sites2) and all(sites2)
-            key = f"{f.qualname.split('.', 2)[-1]}|{call_name(c)}({ast.unparse(arg)})"
+            ordinal[call_name(c)] = ordinal.get(call_name(c), 0) + 1
+            key = f"{f.qualname.split('.', 2)[-1]}|{call_name(c)}#{ordinal[call_name(c)]}"
             where = f"{f.unit.rel}:{c.lineno}"
             if sanitised:
                 res.ok("R09.5", key, where, f"target provenance {sorted(labels)} is sanitised by a dominating equality/membership/project test", labels=sorted(labels))
